@@ -453,6 +453,9 @@ fn configs(quick: bool) -> Vec<(Config, usize)> {
                 if quick && heads == 1 && s == &vec![R, R] {
                     continue; // nothing to reconcile and nothing published
                 }
+                if quick && s == &vec![RP, P] {
+                    continue; // a variant of [P, P]; thorough only
+                }
                 // no crash: high preemption bound (2 processes have few points)
                 out.push((
                     Config { scripts: s.clone(), initial_heads: heads, ineffective_locks: ineffective, max_crashes: 0 },
@@ -469,7 +472,7 @@ fn configs(quick: bool) -> Vec<(Config, usize)> {
                 }
                 out.push((
                     Config { scripts: s.clone(), initial_heads: heads, ineffective_locks: ineffective, max_crashes: 0 },
-                    2,
+                    if quick { 1 } else { 2 },
                 ));
                 if !quick {
                     out.push((
@@ -538,7 +541,7 @@ fn main() {
     let mut published_total = 0u64;
     let mut capped = false;
     let mut nontrivial = 0u64;
-    let wall_cap = ctx.pick(45.0, 1500.0);
+    let wall_cap = ctx.pick(50.0, 1500.0);
     for (cfg, bound) in configs(ctx.quick()) {
         let ecfg = ExploreConfig {
             preemption_bound: bound,
